@@ -7,6 +7,16 @@ CHECKS = {
     note='Trusted: z3, the overloading executor (symx), the closed-form oracle written in the harness. Real arithmetic, exact literals; rounding outside the claim.',
     technique='symbolic execution of the Python source under operator overloading + z3 (nonlinear real arithmetic) validity queries',
     design='2/C12'),
+ 'C08': dict(
+    text='Bounded SMT validity checking of the real tables: every eccentricity_funcs_truncN is executed symbolically in e; coefficient-wise equality with the exact Hansen-series oracle is decided by z3 (interpolation-uniqueness LRA query per entry), closed-form entries by a rational-function query over e in [0,1), omitted modes and lookup dictionaries by finite-domain Int queries. Exhaustive over the shipped (l,N,p,q) in the thorough tier.',
+    note='Trusted: z3, symx executor, the exact Fraction Hansen series oracle (self-tested against Kaula G_201, G_200 and the k=0 closed form). Tolerance 1e-11 relative per coefficient. Rounding of the run-time evaluation outside the claim.',
+    technique='symbolic execution of the table source + z3 linear/nonlinear real arithmetic queries against an exact power-series oracle',
+    design='2/C08'),
+ 'C09': dict(
+    text='Bounded SMT validity checking: calc_inclination(_off) for l=2..7 executed symbolically with the rational quarter-angle parametrisation of I in [0,pi]; each entry compared with Kaula F_lmp^2 by a univariate z3 query (tolerance 1e-9); off tables at I=0; universal coefficients and lookup dictionaries by Int queries over symbolic indices.',
+    note='Trusted: z3, symx executor (de Moivre expansion of sin/cos of multiples of I/2), Kaula triple-sum oracle written in the harness.',
+    technique='symbolic execution of the table source + univariate nonlinear real arithmetic queries in z3',
+    design='2/C09'),
 }
 NOT_YET = {}
 ALL = ['C%02d' % i for i in range(1, 21)]
